@@ -10,18 +10,28 @@ WT=${WTPREFIX:-/tmp/wt_}$P; D=$WT/_deliver; OUT=/verif/seeded/$P-${OUTK:-$K}
 cd $WT || exit 2
 git checkout -q -- . 2>/dev/null; rm -rf omaha-client/tests/_seeded_* mock-omaha-server/tests/_seeded_*
 mkdir -p $OUT/demo; cp $D/patch$K.diff $OUT/patch.diff; cp -r $D/demo$K/. $OUT/demo/ 2>/dev/null
-# install demo test files
+# install demo test files: either *.rs integration tests (copied into the crate's tests/ dir) or a
+# test-only *.diff that appends in-crate tests (applied on top of the clean / patched tree)
 CRATE=omaha-client; PKG=omaha_client
 if grep -qi "mock-omaha-server/tests\|-p mock-omaha-server" $D/demo$K/RUN.md 2>/dev/null; then CRATE=mock-omaha-server; PKG=mock-omaha-server; fi
-mkdir -p $CRATE/tests; NAMES=""
-for f in $D/demo$K/*.rs; do [ -f "$f" ] || continue; b=$(basename $f .rs); cp $f $CRATE/tests/$b.rs; NAMES="$NAMES --test $b"; done
-[ -n "$NAMES" ] || { echo "RESULT $P-$K: no .rs demo found (handle manually)"; exit 3; }
-run_demo() { cargo test -p $PKG --offline $NAMES 2>&1 | tail -40; }
+NAMES=""; DEMODIFF=""
+if ls $D/demo$K/*.rs >/dev/null 2>&1; then
+  for f in $D/demo$K/*.rs; do b=$(basename $f .rs); NAMES="$NAMES --test $b"; done
+  run_demo() { mkdir -p $CRATE/tests; for f in $D/demo$K/*.rs; do cp $f $CRATE/tests/; done; cargo test -p $PKG --offline $NAMES 2>&1 | tail -40; }
+  rm_demo() { for f in $D/demo$K/*.rs; do rm -f $CRATE/tests/$(basename $f); done; rmdir $CRATE/tests 2>/dev/null; }
+elif ls $D/demo$K/*.diff >/dev/null 2>&1; then
+  DEMODIFF=$(ls $D/demo$K/*.diff | head -1)
+  run_demo() { git apply $DEMODIFF && cargo test -p $PKG --offline --lib 2>&1 | tail -40; }
+  rm_demo() { git apply -R $DEMODIFF 2>/dev/null; }
+else
+  echo "RESULT $P-$K: no .rs / .diff demo found (handle manually)"; exit 3
+fi
 CLEAN=$(run_demo); echo "$CLEAN" | grep -q "test result: FAILED\|error\[" && CLEAN_OK=no || CLEAN_OK=yes
 echo "$CLEAN" | grep -q "test result: ok" || CLEAN_OK=no
+rm_demo; git checkout -q -- .
 git apply $D/patch$K.diff || { echo "RESULT $P-$K: patch does not apply"; exit 3; }
 PATCHED=$(run_demo); echo "$PATCHED" | grep -q "test result: FAILED\|panicked\|error: test failed" && PATCHED_FAILS=yes || PATCHED_FAILS=no
-for f in $D/demo$K/*.rs; do rm -f $CRATE/tests/$(basename $f); done; rmdir $CRATE/tests 2>/dev/null
+rm_demo; git checkout -q -- .; git apply $D/patch$K.diff
 SUITE=$(cargo test --workspace --no-fail-fast --offline 2>&1 | grep -E "^test result|FAILED|^error" ); echo "$SUITE" | grep -q "FAILED\|^error\|failed; [1-9]" && SUITE_OK=no || SUITE_OK=yes
 NPASS=$(echo "$SUITE" | grep -o "[0-9]* passed" | awk '{s+=$1} END {print s}')
 git checkout -q -- .; git status --short | grep -v "_deliver\|PROPERTY.txt\|target" | head -3
